@@ -31,6 +31,8 @@ var lexWords = []string{
 	"&&NHX", "&R", "&U", "B", "S", "D", "T", "bootstrap", "posterior", "rate", "height", "begin", "trees", "tree", "translate", "#NEXUS",
 	// matrices
 	"Matrix", "BLOSUM62", "PAM250", "Entropy", "Expected", "gap", "open", "extend",
+	// one- and two-letter type codes (SAM tag types and array subtypes, NHX keys, strand letters)
+	"i", "f", "c", "C", "s", "I", "A", "Z", "H", "B:i", "B:f", "E", "Ev", "W", "N",
 	// general
 	"true", "false", "null", "NA", "NaN", "inf", "none", "version", "date", "2024-09-17", "12:30:05", "v1.2.3", "md5", "crc32", "http://example.org/x?y=1&z=2", "a@b.org",
 }
@@ -112,7 +114,7 @@ func lexFor(r *rand.Rand, format string, field int) string {
 	return v
 }
 
-var lexCoreSeps = []string{"=", ":", " ", "|", "/", "_", ":i:", ":Z:", "-"}
+var lexCoreSeps = []string{"=", ":", " ", "|", "/", "_", ":i:", ":Z:", "-", ",", ";", "."}
 
 func lexiconUnit(format string) func(c *Ctx) {
 	return func(c *Ctx) {
@@ -154,6 +156,18 @@ func lexiconUnit(format string) func(c *Ctx) {
 						fieldRoundTrip(k, cd, format, field, v, "lexicon", "an annotation as real files carry them: word, separator, number")
 						if k.Failed() {
 							return
+						}
+						if variant == 0 && len(w) <= 3 { // short codes: as the whole of EVERY text field
+							for f := 0; f < textFieldCount[format]; f++ {
+								if f == 0 && format != "fasta" && format != "fastq" && format != "newick" {
+									continue
+								}
+								fieldRoundTrip(k, cd, format, f, v, "lexicon", "a short code, a separator and a number as the whole field")
+								if k.Failed() {
+									return
+								}
+								k.Evals(1)
+							}
 						}
 						k.Count("lexicon_annotations_swept", 1)
 						k.Evals(1)
